@@ -1,6 +1,14 @@
-(* Generic lemmas for reasoning about the language-chain pass models (Model/PassesChain.v):
-   the ordered object list, the visitor skeletons, and a relational view of `visit_disj`
-   with a preservation theorem for predicates of the form `any_sub p`. *)
+(* Generic lemmas for reasoning about the language-chain pass models (Model/PassesChain.v).
+   WHAT IS HERE
+   - lists / the ordered object map: existsb_false_iff, mapM_Forall2, Forall2_in_r, objs_set_in_inv,
+     fold_add_object_in, in_objects_of*, objects_of_single;
+   - any_sub / any_below (Model/NF.v): any_sub_below, any_below_of_sub, any_sub_inter_false, sub_at*;
+   - the visitor skeletons as named loops with their equations (visit_struct_eq, visit_inter_eq, visit_schema_eq,
+     visit_schema_st_eq) and what the result's objects are (visit_schema_objects, visit_schema_st_objects, ...);
+   - vrel: a relational view of `visit_disj` (visit_disj_vrel) with the preservation theorems vrel_pres /
+     vrel_pres_below for predicates of the form `any_sub p` (Section Pres);
+   - srel: "same structure up to local rewrites" (references for simple types, attributes, enum members) with
+     srel_pres / srel_pres_below (Section SrelPres), used for the passes that are not union visitors. *)
 From Coq Require Import List String Bool Ascii Lia.
 From Cog Require Import Model.IR Model.Names Model.Passes Model.PassesChain Model.NF Proofs.TyInd.
 Import ListNotations.
